@@ -26,7 +26,7 @@ def second_config(ctx, mod):
     F2 = mir.Facts(p)
     anchors.resolve_all(F2)
     ctx2 = engine.Ctx(ctx.prop, F2, 'thorough')
-    mod.run(ctx2)
+    engine.run_module(mod, ctx2)
     anchors.resolve_all(ctx.F)
     # instance floors were counted on the default configuration (they include the pyo3 layer): not comparable here
     ctx2.findings = [f for f in ctx2.findings if f.instance != 'FLOOR']
